@@ -18,7 +18,8 @@ import itertools
 from ..cfg import build_cfg
 from ..dataflow import Inliner
 from ..loader import AnalysisError, ClassInfo, FuncInfo, Program, calls_in, norm, walk_no_nested
-from ..minieval import PredUnsupported, Raises, equivalent, ev
+from ..minieval import PredUnsupported, Raises, equivalent, ev, run_stmts
+from ..normalize import flat
 from ..report import Ledger
 
 
@@ -69,6 +70,7 @@ def run(prog: Program, L: Ledger) -> None:
     conv = driver.methods.get("converged")
     if not (irun and callobs and conv):
         raise AnalysisError("Driver.irun / call_observers / converged anchor missing")
+    irun, callobs, conv = flat(prog, irun, driver), flat(prog, callobs, driver), flat(prog, conv, driver)
     # irun must not be overridden silently by subclasses with a different loop
     for sub in prog.subclasses(driver, strict=True):
         for m in ("irun", "call_observers", "converged"):
@@ -94,56 +96,34 @@ def run(prog: Program, L: Ledger) -> None:
         if isinstance(n, (ast.Break, ast.Return)):
             L.violation("O1", "call_observers:early-exit", f"{callobs.module.relpath}:{n.lineno}", "fan-out loop exits early: later observers are skipped",
                         "two observers due at the same step: only the first fires", norm(n))
-    # guard(s) around the observer call
-    obs_calls = []
-    guards_of: dict[int, list[tuple[ast.expr, bool]]] = {}
-
-    def walk(stmts, guards):
-        for st in stmts:
-            if isinstance(st, ast.If):
-                walk(st.body, guards + [(st.test, True)])
-                walk(st.orelse, guards + [(st.test, False)])
-            elif isinstance(st, (ast.For, ast.While, ast.With, ast.Try)):
-                raise AnalysisError("call_observers: nested compound statement outside the recognised fragment")
-            else:
-                for c in calls_in(st):
-                    if isinstance(c.func, ast.Name) and c.func.id == var:
-                        obs_calls.append(c)
-                        guards_of[id(c)] = list(guards)
-
-    walk(loop.body, [])
+    # the whole function is evaluated statement by statement for one abstract observer: early exits before
+    # the loop, flags assigned in if/elif chains, `continue` guards and the call itself
+    obs_calls = [c for c in calls_in(loop) if isinstance(c.func, ast.Name) and c.func.id == var]
     if not obs_calls:
         raise AnalysisError("call_observers: no call of the observer found")
-    inl = Inliner(callobs.node)
-    # statements before the fan-out loop may leave early: their guards are part of the schedule
-    pre_guards = []
+    pre_stmts = []
+    post_seen = False
     for st in callobs.body():
         if st is loop:
-            break
-        if isinstance(st, ast.If):
-            leaves = any(isinstance(x, ast.Return) for x in st.body) and not st.orelse
-            if leaves:
-                pre_guards.append(st.test)
-            elif any(isinstance(x, (ast.Return, ast.Raise)) for x in walk_no_nested(st)):
-                raise AnalysisError("call_observers: conditional exit before the fan-out loop outside the recognised `if …: return` form")
-        elif isinstance(st, (ast.Return, ast.Raise)):
-            raise AnalysisError("call_observers: unconditional exit before the fan-out loop")
+            post_seen = True
+            continue
+        if not post_seen:
+            pre_stmts.append(st)
+    pre_guards = [st for st in pre_stmts if isinstance(st, ast.If)]
 
-    def fires(env) -> bool | str:
-        """Does any observer() call execute for this env? (number of calls must be ≤ 1)"""
-        for g in pre_guards:
-            if bool(ev(inl.inline(g), env)):
-                return 0
-        n = 0
-        for c in obs_calls:
-            ok = True
-            for g, pol in guards_of[id(c)]:
-                v = bool(ev(inl.inline(g), env))
-                if v != pol:
-                    ok = False
-                    break
-            n += ok
-        return n
+    def fires(env) -> int:
+        e2 = dict(env)
+        count = [0]
+
+        def on_call(text, call):
+            if text == var:
+                count[0] += 1
+
+        r = run_stmts(pre_stmts, e2, on_call)
+        if r == "return":
+            return 0
+        run_stmts(loop.body, e2, on_call)
+        return count[0]
 
     domain = []
     for i in range(-7, 8):
@@ -164,10 +144,10 @@ def run(prog: Program, L: Ledger) -> None:
                 break
     except PredUnsupported as exc:
         raise AnalysisError(f"call_observers guard: {exc}") from exc
-    gtxt = " / ".join(norm(inl.inline(g)) for c in obs_calls for g, _ in guards_of[id(c)])
+    gtxt = norm(loop)[:200]
     L.check(bad is None, "O1", "call_observers:guard", f"{callobs.module.relpath}:{obs_calls[0].lineno}",
             "observer guard differs from the schedule: " + (f"interval={bad[0]}, step={bad[1]}{bad[4]}: observer called {bad[2]}×, schedule says {bad[3]}×" if bad else ""),
-            (f"observer with interval {bad[0]} at step {bad[1]}{bad[4]}" if bad else ""), gtxt + "".join(" ; early-exit: " + norm(g) for g in pre_guards))
+            (f"observer with interval {bad[0]} at step {bad[1]}{bad[4]}" if bad else ""), gtxt + "".join(" ; early-exit: " + norm(g.test) for g in pre_guards))
     L.extra["guard_domain_points"] = len(domain)
     # attach_observer really stores into .observers
     om = prog.cls("ObserverManager")
@@ -278,7 +258,7 @@ def run(prog: Program, L: Ledger) -> None:
             if f is None:
                 continue
             n_entry += 1
-            _check_entry(L, d, f, is_gen, entry)
+            _check_entry(L, d, flat(prog, f, d), is_gen, entry)
     L.floor("run entry points (driver class × run/srun)", n_entry, 8)
 
 
@@ -304,13 +284,23 @@ def _check_entry(L: Ledger, d: ClassInfo, f: FuncInfo, is_gen: bool, entry: str)
     sv = lp.target.id
     # first statement(s) of the body must exhaust the step generator before anything yields/continues
     exhausted = False
+    inl_e = Inliner(f.node)
+
+    def is_step(e):
+        return norm(inl_e.inline(e)) == sv
+
     for st in lp.body:
-        if isinstance(st, ast.For) and norm(st.iter) == sv and not any(isinstance(x, (ast.Break, ast.Return)) for x in walk_no_nested(st)):
+        if isinstance(st, ast.Assign) and len(st.targets) == 1 and isinstance(st.targets[0], ast.Name) and isinstance(st.value, (ast.Name, ast.Constant)):
+            continue  # alias / placeholder bindings introduced by helper inlining
+        if isinstance(st, ast.For) and is_step(st.iter) and not any(isinstance(x, (ast.Break, ast.Return)) for x in walk_no_nested(st)):
             exhausted = True
             break
-        if isinstance(st, ast.Expr) and isinstance(st.value, ast.Call) and norm(st.value.func) in ("list", "tuple", "collections.deque", "deque") and st.value.args and norm(st.value.args[0]) == sv:
-            exhausted = True
-            break
+        call = st.value if isinstance(st, (ast.Expr, ast.Assign)) and isinstance(st.value, ast.Call) else None
+        if call is not None and norm(call.func) in ("list", "tuple", "collections.deque", "deque", "sum", "max", "min", "any", "all") and call.args and is_step(call.args[0]):
+            mx = [k for k in call.keywords if k.arg == "maxlen"]
+            if norm(call.func) not in ("any", "all"):
+                exhausted = True
+                break
         if any(isinstance(x, (ast.Yield, ast.YieldFrom)) for x in walk_no_nested(st)):
             break  # hands control back before exhausting
     L.check(exhausted, "O4", cons, f"{f.module.relpath}:{lp.lineno}",
@@ -333,7 +323,10 @@ def _check_o3(prog: Program, L: Ledger, irun: FuncInfo, cfg, lt, steps_param: st
     if startup_if is None:
         raise AnalysisError("irun: start-up block not found")
     guard = startup_if.test
-    gtxt = norm(guard)
+    # the block may sit in the else-branch of an inverted guard (`if done: return` style)
+    in_body = any(classify(x, steps_param) == "O" for b in startup_if.body for x in walk_no_nested(b))
+    polarity = "true" if in_body else "false"
+    gtxt = norm(guard) if in_body else f"not ({norm(guard)})"
     # state variables of the guard
     attrs = sorted({norm(n) for n in ast.walk(guard) if isinstance(n, ast.Attribute) and norm(n.value) == "self"})
     if not attrs:
@@ -344,7 +337,7 @@ def _check_o3(prog: Program, L: Ledger, irun: FuncInfo, cfg, lt, steps_param: st
         raise AnalysisError("irun: start-up guard node not in CFG")
     n_checked = 0
     for path in cfg.paths(max_back=2, include_exc=False):
-        took = any(node is test_node and lab == "true" for node, lab in path)
+        took = any(node is test_node and lab == polarity for node, lab in path)
         if not took:
             continue
         # entry states that make the guard true
@@ -356,7 +349,7 @@ def _check_o3(prog: Program, L: Ledger, irun: FuncInfo, cfg, lt, steps_param: st
                 if vals[0] != 0:
                     continue
             try:
-                if not ev(guard, env):
+                if bool(ev(guard, env)) != in_body:
                     continue
             except (Raises, PredUnsupported) as exc:
                 raise AnalysisError(f"irun start-up guard `{gtxt}`: {exc}") from exc
@@ -379,7 +372,7 @@ def _check_o3(prog: Program, L: Ledger, irun: FuncInfo, cfg, lt, steps_param: st
                         elif tt == "self.step_count" and norm(a.value) == "self.step_count + 1":
                             st["self.step_count"] += 1
             final = {k: v for k, v in st.items() if k in attrs}
-            still = bool(ev(guard, final))
+            still = bool(ev(guard, final)) == in_body
             n_checked += 1
             cons = "irun:startup-one-shot"
             if still:
